@@ -389,8 +389,11 @@ pub fn check_cmd(args: CheckArgs) -> i32 {
         let mut cover_bases: Vec<(&Entry, bool, usize)> = corpus.k0.iter().map(|e| (e, true, kmax)).collect();
         for (gi, e) in corpus.g.iter().enumerate() {
             // quick tier: of the 5- and 6-chamber extras the known-euclidean ones (K+) and a seeded eighth of the others get covers
-            if gi >= corpus.extra_from && tier != Tier::Thorough && !kp[gi] && crate::prng::hmix(&[seed, 0xC0FE, gi as u64]) % 8 != 0 {
+            if gi >= corpus.extra_from && tier != Tier::Thorough && !kp[gi] && e.id != "J0" && e.id != "J1" && crate::prng::hmix(&[seed, 0xC0FE, gi as u64]) % 8 != 0 {
                 continue;
+            }
+            if e.id.starts_with('J') && e.id != "J0" && e.id != "J1" {
+                continue; // 8-chamber bulk: no covers
             }
             if kp[gi] || census_g[gi].interesting() {
                 // the 5- to 7-chamber extras: covers with <= 2 sheets only
